@@ -263,9 +263,138 @@ def gen_case(rng, k):
             "kinds": [v.kind for v in variables], "factor": rng.choice([2, 3, 0.5, 10])}
 
 
+# ------------------------------------------------------------------------------------
+# cube sets: the population / min-base arguments travel through CubeSet -> Cube ->
+# (Cube.augment_response | Cube.inflate -> a NEW Cube) -> partitions
+# ------------------------------------------------------------------------------------
+
+
+def drop_zero_elements(resp):
+    """what the backend sends for a single-column filter cube: the elements nobody answered
+    under the filter are absent and the ids of the remaining ones are renumbered"""
+    r = copy.deepcopy(resp)
+    res = r["result"]
+    els = res["dimensions"][0]["type"]["elements"]
+    keep = [i for i, e in enumerate(els) if e["missing"] or res["counts"][i] != 0]
+    new = []
+    for n, i in enumerate(keep):
+        e = copy.deepcopy(els[i])
+        e["id"] = -1 if e["missing"] else n
+        new.append(e)
+    res["dimensions"][0]["type"]["elements"] = new
+    res["counts"] = [res["counts"][i] for i in keep]
+    for m in res["measures"].values():
+        m["data"] = [m["data"][i] for i in keep]
+    return r
+
+
+def _sub_survey(rng, variables, resp, weighted, numvars=()):
+    sv = gen.Survey(variables, 0, rng, weighted=weighted, numvars=numvars)
+    sv.resp = list(resp)
+    return sv
+
+
+def _row_hide(rng, ids):
+    if rng.random() < 0.3 and len(ids) >= 2:
+        return {"rows_dimension": {"elements": {str(rng.choice(ids)): {"hide": True}}}}
+    return {}
+
+
+def gen_set(rng, k):
+    """One CubeSet: list of member dicts (one per cube) + the constructor arguments.
+      augment  tabbook over a text / datetime rows variable: the summary cube and 1-2 single-column
+               filter cubes whose empty answers were dropped by the backend (fewer rows than the
+               summary: Cube.augment_response rebuilds the Cube), or none dropped
+      tabbook  a rows cube and rows x columns cubes (CAT / CAT_DATE / MR)
+      numeric  numeric-measure set: a 0-D mean cube and 1-D cubes, all rebuilt by Cube.inflate"""
+    mode = rng.choice(["augment", "augment", "numeric", "numeric", "tabbook"])
+    pop = rng.choice([1, 7, 1000, 1000, 12345.5, 250000, 250000, 3.25, -40, 10 ** 9, 0])
+    members, responses, transforms = [], [], []
+
+    def add(resp, tr, strand, extra, style, cat_date, kinds, lone, augmented=False):
+        responses.append(resp)
+        transforms.append(tr)
+        members.append({"strand": strand, "filter_json": extra, "style": style, "cat_date": cat_date,
+                        "kinds": kinds, "lone": lone, "augmented": augmented})
+
+    if mode == "augment":
+        kind = rng.choice(["text", "text", "datetime"])
+        t = gen.make_enum(rng, "rowv", kind, n_valid=rng.randint(3, 6))
+        f = gen.make_cat(rng, "f", n_valid=rng.randint(1, 2), n_missing=0, numeric=None)
+        sv = gen.Survey([t, f], rng.choice([6, 10, 15, 30]), rng)
+        valid_t = [i for i, e in enumerate(t.elements) if not e["missing"]]
+        ids = [t.elements[i]["id"] for i in valid_t]
+        extra, style = gen_filter_stats(rng)
+        add(gen.cube_response(sv, ["rowv"], filter_stats=extra), _row_hide(rng, ids), True, extra, style,
+            [False], [kind], "self")
+        for fi in range(len(f.cats)):
+            sub = [copy.deepcopy(r) for r in sv.resp if r["ans"]["f"] == fi]
+            if rng.random() < 0.8 and len(valid_t) >= 2:
+                # the filter leaves some answers out
+                allowed = rng.sample(valid_t, rng.randint(1, len(valid_t) - 1))
+                for r in sub:
+                    if r["ans"]["rowv"] in valid_t and r["ans"]["rowv"] not in allowed:
+                        r["ans"]["rowv"] = rng.choice(allowed)
+            svf = _sub_survey(rng, [t, f], sub, sv.weighted)
+            extra, style = gen_filter_stats(rng)
+            full = gen.cube_response(svf, ["rowv"], filter_stats=extra)
+            full["result"]["is_single_col_cube"] = True
+            filt = drop_zero_elements(full)
+            add(filt, _row_hide(rng, ids), True, extra, style, [False], [kind + "-filter"], full,
+                augmented=len(filt["result"]["counts"]) != len(responses[0]["result"]["counts"]))
+    elif mode == "tabbook":
+        rowv = _dim(rng, "rowv")
+        cols = [_dim(rng, "col%d" % j) for j in range(rng.randint(1, 2))]
+        sv = gen.Survey([rowv] + cols, rng.choice([3, 8, 15, 30]), rng)
+        extra, style = gen_filter_stats(rng)
+        add(gen.cube_response(sv, ["rowv"], filter_stats=extra), {}, True, extra, style,
+            [rowv.kind == "cat_date"], [rowv.kind], "self")
+        for c in cols:
+            extra, style = gen_filter_stats(rng)
+            add(gen.cube_response(sv, ["rowv", c.alias], filter_stats=extra), {}, False, extra, style,
+                [rowv.kind == "cat_date", c.kind == "cat_date"], [rowv.kind, c.kind], "self")
+    else:
+        cols = [_dim(rng, "col%d" % j, allow_mr=False) for j in range(rng.randint(1, 2))]
+        sv = gen.Survey(cols, rng.choice([3, 8, 15, 30]), rng, numvars=["x"])
+        meas = rng.choice([("count", "mean"), ("count", "sum"), ("count", "mean", "stddev")])
+        extra, style = gen_filter_stats(rng)
+        add(gen.cube_response(sv, [], measures=meas, numvar="x", filter_stats=extra), {}, True, extra, style,
+            [False], ["numeric-0D-inflated"], None)
+        for c in cols:
+            extra, style = gen_filter_stats(rng)
+            add(gen.cube_response(sv, [c.alias], measures=meas, numvar="x", filter_stats=extra), {}, False,
+                extra, style, [False, c.kind == "cat_date"], ["numeric-inflated", c.kind], None)
+    min_base = rng.choice([0, 0, 5, 30])
+    factor = rng.choice([2, 3, 0.5, 10])
+    cases = []
+    for j, m in enumerate(members):
+        cases.append({"k": "set%s#%d" % (k, j), "strand": m["strand"], "response": responses[j],
+                      "population": pop, "style": m["style"], "filter_json": m["filter_json"],
+                      "cat_date": m["cat_date"], "kinds": m["kinds"], "factor": factor,
+                      "set": {"mode": mode, "idx": j, "responses": responses, "transforms": transforms,
+                              "min_base": min_base, "augmented": m["augmented"],
+                              "lone": responses[j] if m["lone"] == "self" else m["lone"]}})
+    return cases
+
+
+def set_partition(case, population):
+    st = case["set"]
+    cs = impl.CubeSet(copy.deepcopy(st["responses"]), copy.deepcopy(st["transforms"]), population,
+                      st["min_base"])
+    return cs, cs.partition_sets[0][st["idx"]]
+
+
 def impl_run(case):
-    P = impl.partition(case["response"], None, population=case["population"])
-    P2 = impl.partition(case["response"], None, population=case["population"] * case["factor"])
+    if "set" in case:
+        st = case["set"]
+        g = impl.guarded(lambda: (set_partition(case, case["population"]),
+                                  set_partition(case, case["population"] * case["factor"])))
+        if g[0] != "ok":
+            return {"error": g}
+        (cs, P), (_cs2, P2) = g[1]
+    else:
+        P = impl.partition(case["response"], None, population=case["population"])
+        P2 = impl.partition(case["response"], None, population=case["population"] * case["factor"])
     if case["strand"]:
         names = ("table_proportions", "table_proportion_stderrs", "diff_row_idxs")
     else:
@@ -277,6 +406,21 @@ def impl_run(case):
            "out2": {n: impl.get(P2, n) for n in ("population_counts", "population_counts_moe")},
            "cube_fraction": impl.get(impl.cube(case["response"], population=case["population"]),
                                      "population_fraction")}
+    if "set" in case:
+        st = case["set"]
+        # the set's own fraction is that of its first cube; the member's is checked on its partition
+        out["cube_fraction"] = impl.get(cs, "population_fraction") if st["idx"] == 0 \
+            else out["out"]["population_fraction"]
+        if st.get("lone") is not None:
+            # the same cube stand-alone (augmented filter cube: the full-shape response the backend
+            # would have sent without dropping), same transforms / population / cube index
+            gl = impl.guarded(lambda: impl.partition(st["lone"], st["transforms"][st["idx"]],
+                                                     population=case["population"], mask_size=st["min_base"],
+                                                     cube_idx=st["idx"]))
+            if gl[0] == "ok":
+                out["lone"] = {n: impl.get(gl[1], n) for n in ("population_counts", "population_counts_moe")}
+            else:
+                out["lone"] = {"population_counts": gl, "population_counts_moe": gl}
     return out
 
 
@@ -397,6 +541,17 @@ def compare(case, io, toks):
                 diff = core.first_diff_mat(iv, m)
             fail(name, {"first_diff": diff, "population": case["population"], "fraction": m_frac,
                         "cat_date": case["cat_date"]})
+        # through a CubeSet == the stand-alone cube with the same arguments
+        if "lone" in io:
+            rl = io["lone"][name]
+            import numpy as np
+            same = _ok(rl) and np.asarray(rl[1]).shape == np.asarray(r[1]).shape and bool(
+                np.allclose(np.asarray(rl[1], dtype=float), np.asarray(r[1], dtype=float),
+                            rtol=1e-9, atol=0.0, equal_nan=True))
+            if not same:
+                fail(name + ".set-vs-lone", {"through_cube_set": r[1], "stand_alone": rl[1] if _ok(rl) else rl,
+                                             "population": case["population"], "set": case["set"]["mode"],
+                                             "cube": case["set"]["idx"]})
         # linear in the population
         r2 = io["out2"][name]
         if _ok(r2):
@@ -418,12 +573,15 @@ def compare(case, io, toks):
 
 
 def nontrivial(case):
-    return bool(case["filter_json"]) or any(case["cat_date"])
+    return bool(case["filter_json"]) or any(case["cat_date"]) or ("set" in case and case["population"] != 0)
 
 
 def _replayable(case):
-    return {k: case[k] for k in ("k", "strand", "response", "population", "style", "filter_json",
-                                 "cat_date", "kinds", "factor")}
+    d = {k: case[k] for k in ("k", "strand", "response", "population", "style", "filter_json",
+                              "cat_date", "kinds", "factor")}
+    if "set" in case:
+        d["set"] = case["set"]
+    return d
 
 
 def check_case(case, rep, io, toks):
@@ -431,7 +589,8 @@ def check_case(case, rep, io, toks):
     for what, detail, ctx in compare(case, io, toks):
         c = {"what": what}
         c.update(ctx)
-        kind = "impl-vs-property" if (".property" in what or ".linear" in what) else "impl-vs-model"
+        kind = "impl-vs-property" if (".property" in what or ".linear" in what or ".set-vs-lone" in what) \
+            else "impl-vs-model"
         if rep.violation(kind, _replayable(case), dict(detail, what=what), c) != "known":
             live.append((what, detail, ctx))
     return live
@@ -487,10 +646,19 @@ def run(tier, seed):
     rep = core.Report(PID, tier, seed)
     ob = core.obligations_gate(rep, PID)
     n_cases = 400 if tier == "quick" else 4000
+    n_sets = 70 if tier == "quick" else 700
     rng = random.Random(seed)
     todo, terms = [], []
-    for case in fixed_cases() + [gen_case(rng, k) for k in range(n_cases)]:
+    all_cases = fixed_cases() + [gen_case(rng, k) for k in range(n_cases)]
+    for k in range(n_sets):
+        all_cases.extend(gen_set(rng, k))
+    for case in all_cases:
         io = impl_run(case)
+        if "error" in io:
+            rep.count_case(_replayable(case), nontrivial(case))
+            rep.violation("impl-exception", _replayable(case), {"exception": io["error"]},
+                          {"what": "exception-building-cube-set-partition"})
+            continue
         term, why = build_term(case, io)
         if term is None:
             rep.count_case(_replayable(case), nontrivial(case))
@@ -507,6 +675,17 @@ def run(tier, seed):
     for (case, io), toks in zip(todo, results):
         rep.count_case(_replayable(case), nontrivial(case))
         rep.dist("strand" if case["strand"] else "slice")
+        if "set" in case:
+            st = case["set"]
+            rep.dist("cube-set member: %s cube %s" % (st["mode"], "0" if st["idx"] == 0 else ">=1"))
+            if st.get("augmented"):
+                rep.dist("cube-set member: AUGMENTED filter cube (fewer rows than the summary)")
+            if st["mode"] == "numeric":
+                rep.dist("cube-set member: INFLATED numeric cube")
+            if case["population"] != 0:
+                rep.dist("cube-set member with non-zero population")
+            if st["min_base"]:
+                rep.dist("cube-set member with min_base > 0")
         rep.dist("filter-style=" + case["style"])
         rep.dist("kinds=" + "_x_".join(case["kinds"]))
         if case["strand"]:
@@ -541,7 +720,10 @@ def replay(path):
     case = d["violation"]["case"]
     rep = core.Report(PID, "quick", d.get("seed", 0))
     io = impl_run(case)
-    term, why = build_term(case, io)
+    term, why = (None, "error") if "error" in io else build_term(case, io)
+    if "error" in io:
+        print("REPLAY: building the cube-set partition raises: still failing", io["error"])
+        return 1
     if term is None:
         print("REPLAY: %s: still failing" % why)
         return 1
